@@ -27,6 +27,11 @@ pub struct ScanEditInput {
     pub kind: String,
     /// scheduler steps the client waits after `initialize` before sending the notification
     pub delay: u64,
+    /// when set, the delay is not absolute but relative to the scheduler step at which a pilot run
+    /// (scan only, same sigma) saw the scan worker pick up the file: delay = pilot + aim (>= 0).
+    /// Places the notification inside the worker's read/analyse of F far more often than uniform delays.
+    #[serde(default)]
+    pub aim: Option<i64>,
     /// clause 2: one further change
     pub second: String,
     pub run_seed: u64,
@@ -108,8 +113,16 @@ impl Scenario for ScanEdit {
             2 => rng.below(2500) as u64,
             _ => rng.below(12000) as u64,
         };
-        let kind = if rng.chance(600) { "open" } else { "change" };
-        serde_json::to_value(ScanEditInput { spec, sim, file, buffer, kind: kind.into(), delay, second, run_seed, sandbox: None }).unwrap()
+        let kind = if rng.chance(500) { "open" } else { "change" };
+        let aim = if rng.chance(450) { Some(rng.below(700) as i64 - 350) } else { None };
+        if aim.is_some() {
+            // aimed runs want fine-grained interleaving of the worker and the handler
+            let keep = sim.max_steps;
+            sim = SimParams::dense(&mut rng, 4000);
+            sim.shards = *rng.pick(&[1usize, 2, 4, 16]);
+            sim.max_steps = keep;
+        }
+        serde_json::to_value(ScanEditInput { spec, sim, file, buffer, kind: kind.into(), delay, aim, second, run_seed, sandbox: None }).unwrap()
     }
 
     fn exec(&self, input: &Value) -> RunOut {
@@ -123,9 +136,27 @@ impl Scenario for ScanEdit {
         };
         let sb = Sandbox::acquire("c10", inp.run_seed, inp.sandbox.as_deref().map(Path::new));
         let root = inp.spec.materialise(&sb.root());
+        let mut inp = inp;
+        let mut k = 0;
+        if let Some(aim) = inp.aim {
+            // pilot: when does the scan pick up F under this sigma?
+            let r3 = root.clone();
+            let f3 = inp.file.clone();
+            let (poc, t) = simrt::run(inp.sim.cfg(replay_list(input, 0)), move || pilot(&r3, &f3));
+            out.absorb_outcome(&poc);
+            k = 1;
+            if let Some(a) = &poc.abort {
+                abort_to_violation(&mut out, a, "pilot scan");
+                return out;
+            }
+            let t = t.flatten().unwrap_or(0) as i64;
+            inp.delay = (t + aim).max(0) as u64;
+            out.count("fault.notification_aimed_at_scan_of_file", 1);
+            // a fresh tree for the real run (the pilot did not modify it, but keep creation order identical)
+        }
         let root2 = root.clone();
         let i2 = inp.clone();
-        let (oc, obs) = simrt::run(inp.sim.cfg(replay_list(input, 0)), move || drive(&root2, &i2));
+        let (oc, obs) = simrt::run(inp.sim.cfg(replay_list(input, k)), move || drive(&root2, &i2));
         out.absorb_outcome(&oc);
         out.fingerprint = mix(fnv(&serde_json::to_string(&(&inp.spec, &inp.file, &inp.buffer, inp.delay)).unwrap()), oc.log_hash);
         if let Some(a) = &oc.abort {
@@ -185,6 +216,32 @@ impl Scenario for ScanEdit {
         }
         out
     }
+}
+
+/// Scan only; returns the number of scheduler steps after `initialized` at which F's text entered the cache.
+fn pilot(root: &Path, file: &str) -> Option<u64> {
+    let mut srv = LspServer::start(root);
+    let id = srv.initialize();
+    srv.await_response(id, 200)?;
+    srv.notify("initialized", json!({}));
+    srv.steps(3);
+    let t0 = simrt::total_steps();
+    let abs = root.join(file);
+    let mut found = None;
+    for _ in 0..4000 {
+        if srv.db.file_cache.contains_key(&abs) {
+            found = Some(simrt::total_steps() - t0);
+            break;
+        }
+        if srv.scan_complete_seen() {
+            break;
+        }
+        simrt::sleep_steps(15);
+        srv.steps(1);
+    }
+    srv.join_scan();
+    srv.settle(2, 500);
+    found
 }
 
 fn drive(root: &Path, inp: &ScanEditInput) -> Obs {
